@@ -38,7 +38,7 @@ def run(ctx) -> None:
     R2 = ctx.rule(
         "C03/synthetic-only-from-generators",
         "constructor calls passing is_synthetic=True are exactly those inside the sub-event generators; no other write to is_synthetic",
-        floor=3,
+        floor=1,
     )
     R3 = ctx.rule(
         "C03/watch-released-on-leave",
